@@ -30,6 +30,7 @@ EXPLANATION = (
     " (R4 retry-store) the transmission counter is only ever assigned '= 0' or '+= 1' in the protocol classes."
     ' (R8) execute() calls send_request at most once per activation and never re-enters itself; _read_from_socket executes the command once.'
     ' (R9, shared with C05.R2) the retry counter is reset wherever a request ends, so the next request is neither failed early nor granted extra transmissions.'
+    ' (R10, shared with C05.R1) timeout and retries keep their role through every constructor / factory call: retries + 1 transmissions and one timeout per transmission are the caller\'s numbers.'
 )
 
 
@@ -50,6 +51,14 @@ def check(ctx: Ctx, rep: Report):
     retry_stores(ctx, rep)
     rep.rule("C04.R8", "the retries+1 bound of send_request is the bound of the request: execute() calls send_request at most once per activation and never re-enters itself; _read_from_socket executes the command once", 2)
     single_activation(ctx, rep)
+    rep.rule("C04.R10", "the retries / timeout the caller configured are the ones the bound is counted against: they keep their role through every constructor and factory call (shared with C05.R1)", 10)
+    from .c05 import r1 as _c05_r1
+    from ..core import Report as _R10
+    _s10 = _R10("C05", rep.tier)
+    _c05_r1(ctx, _s10)
+    for o in _s10.obligations:
+        if o.rule == "C05.R1":
+            rep.obligations.append(type(o)("C04.R10", o.key, o.where, o.what, o.status, o.detail))
     rep.rule("C04.R9", "every request starts with its whole budget of retries + 1 transmissions: the retry counter is reset wherever a request ends (shared with C05.R2)", 8)
     from .c05 import r2 as _c05_r2
     from ..core import Report as _R9
